@@ -41,7 +41,14 @@ func TestC20Free(t *testing.T) {
 		if rapid.IntRange(0, 2).Draw(t, "cancel") == 0 {
 			cancelAfter = rapid.IntRange(0, min(count, 40)).Draw(t, "cancelAfterReceives")
 		}
-		trace := []string{fmt.Sprintf("count=%d rate=%v pauses(half rates)=%v cancelAfter=%d", count, rate, pat, cancelAfter)}
+		// or the context ends by itself: a deadline a whole number of rates after the call (it ties with a tick)
+		deadlineTicks := -1
+		if cancelAfter < 0 && rate < time.Hour && rapid.IntRange(0, 2).Draw(t, "deadline") == 0 {
+			deadlineTicks = rapid.IntRange(1, min(count+2, 30)).Draw(t, "deadlineTicks")
+		}
+		// a context type that reports its end through Err() only (its Done channel never closes)
+		errOnly := (cancelAfter >= 0 || deadlineTicks >= 0) && rapid.IntRange(0, 2).Draw(t, "errOnlyCtx") == 0
+		trace := []string{fmt.Sprintf("count=%d rate=%v pauses(half rates)=%v cancelAfter=%d deadlineAfterTicks=%d errOnlyCtx=%v", count, rate, pat, cancelAfter, deadlineTicks, errOnly)}
 		vkit.CaseStart(func() string { return strings.Join(trace, " ; ") })
 		var (
 			got          int
@@ -52,7 +59,13 @@ func TestC20Free(t *testing.T) {
 		)
 		rapid.SyncTest(t, func(t *rapid.T) {
 			ctx, cancel := context.WithCancel(context.Background())
+			if deadlineTicks >= 0 {
+				ctx, cancel = context.WithTimeout(context.Background(), time.Duration(deadlineTicks)*rate)
+			}
 			defer cancel()
+			if errOnly {
+				ctx = c20ErrOnlyCtx{ctx, make(chan struct{})}
+			}
 			start := time.Now()
 			c := bigbuff.LinearAttempt(ctx, rate, count)
 			select {
@@ -80,12 +93,13 @@ func TestC20Free(t *testing.T) {
 				if p := pat[i%len(pat)]; p > 0 {
 					time.Sleep(time.Duration(p) * rate / 2)
 				}
+				expired := ctx.Err() != nil // (a deadline may have passed during the pause)
 				v, ok := <-c
 				if !ok {
 					break
 				}
 				got++
-				if cancelled {
+				if cancelled || expired {
 					afterCancel++
 				}
 				if v.Before(last) {
@@ -111,7 +125,7 @@ func TestC20Free(t *testing.T) {
 			vkit.Fail(t, "C20/free-order", "%s\ncase: %v", bad, trace)
 		case got > count:
 			vkit.Fail(t, "C20/more-than-count", "the channel yielded %d values (and counting), count is %d\ncase: %v", got, count, trace)
-		case cancelAfter < 0 && got != count:
+		case cancelAfter < 0 && deadlineTicks < 0 && got != count:
 			vkit.Fail(t, "C20/closed-early", "a receiver that kept receiving got %d values before the channel was closed, count is %d and the context was never cancelled\ncase: %v", got, count, trace)
 		case afterCancel > 2:
 			vkit.Fail(t, "C20/too-many-after-cancel", "%d values were received after the context had been cancelled (at most one buffered and one in flight are possible)\ncase: %v", afterCancel, trace)
@@ -124,6 +138,6 @@ func TestC20Free(t *testing.T) {
 				ties++
 			}
 		}
-		st.Case(trace, ties > 0 && count >= 7, fmt.Sprintf("count:%d", count), map[bool]string{true: "cancelled", false: "to-the-end"}[cancelAfter >= 0])
+		st.Case(trace, ties > 0 && count >= 7, fmt.Sprintf("count:%d", count), map[bool]string{true: "cancelled", false: "to-the-end"}[cancelAfter >= 0 || deadlineTicks >= 0])
 	})
 }
